@@ -114,6 +114,14 @@ class ChainRecorder:
             saved["clear_proposal_dist_caches"]()
             rec.events.append({"ev": "clear_caches"})
 
+        from phyclone.tree import Tree
+        saved_relabel = Tree.relabel_nodes
+
+        def relabel_nodes(self_tree):
+            saved_relabel(self_tree)
+            rec.events.append({"ev": "relabel"})
+
+        Tree.relabel_nodes = relabel_nodes
         prun.setup_samplers = setup_samplers
         prun.append_to_trace = append_to_trace
         prun.update_concentration_value = update_concentration_value
@@ -121,6 +129,7 @@ class ChainRecorder:
         try:
             yield self
         finally:
+            Tree.relabel_nodes = saved_relabel
             for n, f in saved.items():
                 setattr(prun, n, f)
 
